@@ -16,8 +16,26 @@ def _programs(n, seed0, prop, **kw):
     return progs
 
 
+def runtime_models(V, wd, names, coverage=False, timeout=2400):
+    """Model check templates of sys/Runtime.tla (deadlock, termination, marker counters, sink = meaning)."""
+    for name in names:
+        tpl, cfg = name
+        r = tlc_check(f"{SPEC}/mc/MC_RT_{tpl}.tla", f"{SPEC}/mc/MC_RT_{cfg}.cfg", wd, f"rt_{cfg}", workers=10,
+                      timeout=timeout, coverage=coverage)
+        if not r["ok"]:
+            raise ToolError(f"Runtime template {cfg}: {r['invariant_violated']} fails on the MODEL")
+        if coverage:
+            require_coverage(r, ["SourcePull", "Pull", "Send", "Finished"], f"Runtime {cfg}")
+        V.add_model(r, f"Runtime/{cfg}")
+
+
 def C01(V, tier):
     wd = workdir("C01")
+    if tier == "quick":
+        runtime_models(V, wd, [("twophase", "twophase_quick"), ("group", "group_quick")])
+    else:
+        runtime_models(V, wd, [("twophase", "twophase"), ("group", "group"), ("pipe", "pipe_quick"),
+                               ("diamond", "diamond_quick")], coverage=True)
     rng = random.Random(seed())
     n = 60 if tier == "quick" else 600
     progs = _programs(n, seed(), "C01", max_ops=5 if tier == "quick" else 8)
@@ -436,6 +454,11 @@ def C04(V, tier):
     empty inputs, loops, side inputs, diamonds; a job that makes no progress for hang_ms is a hang."""
     rng = random.Random(seed() + 4)
     q = tier == "quick"
+    wd0 = workdir("C04m")
+    if q:
+        runtime_models(V, wd0, [("pipe", "pipe_quick")])
+    else:
+        runtime_models(V, wd0, [("pipe", "pipe"), ("diamond", "diamond_quick"), ("group", "group")], coverage=True)
     progs = []
     progs += gen.fan_programs(rng, 12 if q else 120)
     progs += gen.join_programs(rng, 10 if q else 120)
